@@ -134,6 +134,13 @@ class Prop:
                          '"abc" // {or: [{type: "string", regex: "%s"}, "integer"]}', '{ // {additionalProperties: "string"}\n  "k": "v" // {regex: "%s", optional: true}\n}']:
                 for e in ('S', 'SL', 'SA', 'SE'):
                     add(e, (form % rx).encode(), 'bad-rule-value')
+        # rule values of every JSON kind for every rule: the wrong kind is the author's mistake, with a code of its own
+        for name in ['min', 'max', 'minLength', 'maxLength', 'minItems', 'maxItems', 'precision', 'regex', 'type', 'enum', 'const', 'nullable', 'optional',
+                     'additionalProperties', 'or', 'allOf', 'exclusiveMinimum', 'exclusiveMaximum']:
+            for val in ['5', '"x"', 'true', 'null', '1.5', '[1]', '{}', '-1', '"@t"', '[]', '""']:
+                for ex in ['1', '"a"', '[\n  1\n]', '{}', '1.5']:
+                    text = (ex[0] + ' // {%s: %s}' % (name, val) + ex[1:]) if ex[0] in '[' else '%s // {%s: %s}' % (ex, name, val)
+                    add('S', text.encode(), 'rule-value-kind')
         return cs
 
     def model_lines(self, lines, impl):
